@@ -215,14 +215,14 @@ class LockRoles:
         # every module that holds a lock class (base or platform subclass)
         self.units = [self.unit] + [sc_.unit for sc_ in self.subs if sc_.unit is not self.unit]
         self.units = list({id(x): x for x in self.units}.values())
-        ga = build(self.os_acquire, p)
+        ga = build(self.os_acquire, p, inline_methods=True)      # (the hook may be called from a helper of the OS acquire helper)
         self.oslock_name = self.osunlock_name = None
         for n in ga.nodes:
             if n.kind == 'call':
                 info = callee_info(ga, n.ast)
                 if info['kind'] == 'package' and any(s in self.abstract or _overrides(s, self.abstract) for s in info['scopes']):
                     self.oslock_name = info['method']
-        gr = build(self.os_release, p)
+        gr = build(self.os_release, p, inline_methods=True)
         for n in gr.nodes:
             if n.kind == 'call':
                 info = callee_info(gr, n.ast)
@@ -541,6 +541,26 @@ def c02(ctx: Ctx) -> None:
         v = s.meta.get('value')
         same = bool(oslocks) and isinstance(v, ast.Name) and all(
             o.ast.args and isinstance(o.ast.args[0], ast.Name) and o.ast.args[0].id == v.id for o in oslocks)
+        if not same and bool(oslocks) and isinstance(v, ast.Name):
+            # the descriptor may come back from a helper (`fd, locked = self._open_locked(block)`): on every path reaching the
+            # store, what the stored name denotes is the variable that was handed to the OS lock
+            from ..paths import envs_at as _envs_at
+            from ..dataflow import leaves as _leaves
+            lockargs = {o.ast.args[0].id for o in oslocks if o.ast.args and isinstance(o.ast.args[0], ast.Name)}
+            # (definitions of the name that reach the store on a feasible path: `return None, False` sets the flag that keeps
+            # its `None` away from the store)
+            defs_ = [n_ for n_ in ga.nodes if n_.kind == 'store_name' and n_.meta['name'] == v.id]
+            live_ = [d_ for d_ in defs_ if find_path(ga, [d_], [s], avoid=[x_ for x_ in defs_ if x_ is not d_]) is not None]
+            vals_ = []
+            for d_ in live_:
+                dv_ = d_.meta.get('value')
+                vals_ += _leaves(ga, d_, dv_) if isinstance(dv_, ast.Name) else [dv_]
+
+            def _root(e_):
+                from ..dataflow import unalias as _ua
+                return e_
+            same = bool(vals_) and len(lockargs) == 1 and all(
+                (isinstance(x, ast.Name) and x.id in lockargs) or (isinstance(x, ast.Call) and ga.res.path(x.func) == 'os.open') for x in vals_)
         ctx.check('C02-R3', f'{norm(s.meta.get("stmt"))} only after {r.oslock_name}() returned normally', ga.loc(s),
                   w is None and same, 'descriptor recorded only after a successful OS lock on that descriptor',
                   'the descriptor can be recorded without a successful OS lock on it',
